@@ -19,6 +19,9 @@ func init() {
 			ruleCountLoop(c)
 			rulePtrTag(c)
 			ruleEntryPresence(c)
+			ruleProtoMapEntry(c)
+			rulePointerWrapper(c)
+			ruleOverlayKey(c)
 			ruleEfaceDirect(c)
 			// nested values are framed by the size their codec reports: size = appended length is a
 			// necessary condition of the round trip (the reader slices the body by that length)
